@@ -187,7 +187,11 @@ func structCrashProperty(t *rapid.T, sc structCrashCfg) {
 	})
 	// a dense file of several hundred blocks: freeing it takes several shrinker transactions
 	ndense := 0
-	acts["densebig"] = wrap(func(t *rapid.T) {
+	acts["densebig"] = func(t *rapid.T) {
+		if cut || x.Budget < 60 {
+			t.Skip("case cut short")
+		}
+		// every WRITE is a timeline entry of its own (each is atomic by itself)
 		files := x.M.LiveKind(nt.NF3REG)
 		if len(files) == 0 || ndense >= 1 || x.Budget < 1400 {
 			return
@@ -196,15 +200,18 @@ func structCrashProperty(t *rapid.T, sc structCrashCfg) {
 		f := pick(t, files, "file")
 		start := uint64(rapid.IntRange(0, 200).Draw(t, "startblock"))
 		nw := rapid.IntRange(2, 3).Draw(t, "nwrites")
-		for i := 0; i < nw; i++ {
-			n := uint32(rapid.IntRange(300, 470).Draw(t, "blocks")) * BlockSize
-			if x.Write(LiveRef(f), start*BlockSize, patternData(g.nextTag(), uint64(n)), n, pick(t, g.Cfg.Stable, "stable")) != nil {
-				cut = true
-				return
-			}
-			start += uint64(n / BlockSize)
+		for i := 0; i < nw && !cut; i++ {
+			cr.Step(func() error {
+				n := uint32(rapid.IntRange(300, 470).Draw(t, "blocks")) * BlockSize
+				if x.Write(LiveRef(f), start*BlockSize, patternData(g.nextTag(), uint64(n)), n, pick(t, g.Cfg.Stable, "stable")) != nil {
+					cut = true
+					return nil
+				}
+				start += uint64(n / BlockSize)
+				return nil
+			})
 		}
-	})
+	}
 	acts["dropbig"] = wrap(func(t *rapid.T) {
 		var big []*MNode
 		for _, f := range x.M.LiveKind(nt.NF3REG) {
